@@ -201,6 +201,10 @@ def run(ctx):
                 c.intext = "".join(txt)
                 c.tag = "%d late copies written with stray gap characters" % marked
                 ctx.count("late_copies_with_stray_gaps")
+        elif c.api == "file" and i % 4 == 1:
+            # no line terminator after the last residue of the file
+            c.intext = gen.fasta_text(recs).rstrip("\n")
+            ctx.count("files_without_final_newline")
         cases.append(c)
     sysrun.run_cases(kvh, cases)
     # very long duplicates (beyond the 10000-residue clamp of the length term of the distance) with short fragments one edit away from a locus of
